@@ -71,5 +71,5 @@ def main(tier, evidence):
     rep.assumptions += ["decided at LLVM-IR level (sancov edges and addresses) as the property names compiler coverage instrumentation as its observation point; what an x86 back end makes of a branch-free IR select in a particular final binary is not visible here (DESIGN C14)",
                         "message and message length are public: traces are compared per (set, message length)"]
     if tier == "quick":
-        rep.caps.append("quick: subject's release profile (opt-level s + LTO) only; 192 counter RNG answers; strided r/z sweeps for make_hint")
+        rep.caps.append("quick: subject's release profile (opt-level s + LTO) only; 448 counter RNG answers; strided r/z sweeps for make_hint")
     return rep.finish(evidence)
